@@ -300,7 +300,7 @@ func (m *model) nativeRaise(i int) result {
 	case pInterrupt:
 		return result{Kind: rRet, Val: known(vRet), Fl: flight{IntrPending: true}}
 	case pErr:
-		return result{Kind: rThrough, Fl: flight{Kind: fThrown, Val: m.newFresh("TypeError", nil), Sticky: true}}
+		return result{Kind: rThrough, Fl: flight{Kind: fThrown, Val: m.newFresh("MyErr", nil), Site: mkErrSite, Sticky: true}}
 	default:
 		return result{Kind: rThrough, Fl: flight{Kind: fThrown, Val: valueOfPayload(p), Sticky: isErrorObject(p)}}
 	}
